@@ -39,7 +39,7 @@ CONSTANTS Chans,       \* subset of {"workflow", "action", "reusable", "config"}
           ExprLen      \* `${{`-fragments: all sequences over ExprAlpha up to this length (at one position per domain)
 
 AllChans == {"workflow", "action", "reusable", "config"}
-AllMutKinds == {"scalar", "seq", "map", "alias", "anchored", "tagged", "merge", "key", "nest", "long", "expr", "root", "recog", "cycle", "multi", "depth"}
+AllMutKinds == {"scalar", "seq", "map", "alias", "anchored", "tagged", "merge", "key", "nest", "long", "expr", "root", "recog", "cycle", "multi", "depth", "mbyte", "graph"}
 AllTags == {"none", "!!str", "!!int", "!!float", "!!bool", "!!null", "!!binary", "!!timestamp", "!verif"}
 Outcomes == {"clean", "diag", "fatal"}
 \* what the PROPERTY allows on every channel, and what the DESIGN produces per channel (narrower; a difference
@@ -500,7 +500,7 @@ TagOf(f) == IF f.k \in {"s", "rep", "sx", "px", "q", "m"} THEN f.tag ELSE "none"
 Vec(mut, label, ops, holes, decos, exp) ==
   [prop |-> "C01", ch |-> ch, b |-> b, path |-> path, site |-> Site, tk |-> HereU.k, dom |-> DomHere,
    mut |-> mut, label |-> label, ops |-> ops, holes |-> holes, decos |-> decos, raw |-> <<>>,
-   multi |-> [proj |-> TRUE, files |-> <<>>],
+   multi |-> [proj |-> TRUE, files |-> <<>>], gen |-> [shape |-> "", a |-> 0, b |-> 0],
    exp |-> exp, allowed |-> Allowed(ch)]
 
 \* replacement of the node by a fragment
@@ -685,6 +685,42 @@ EmitDepth ==
                               IF ch = "workflow" THEN "diag" ELSE "any"))
   /\ UNCHANGED <<ch, b, path>>
 
+\* multi-byte text IN FRONT OF a diagnosed position on the same line (columns of errors inside ${{ }} come from byte
+\* offsets, snippets are sliced by them): k characters of 2, 3 and 4 bytes, a combining mark, a zero-width joiner,
+\* in the same scalar and in the key of the entry; run through the snippet-printing output formats
+MbChars == <<"@@EACUTE", "@@WIDE", "@@EMOJI", "@@COMB", "@@WIDE@@ZWJ@@EMOJI">>
+MbErr == <<" ${{ foo }}", " ${{ github.nosuch }} ${{ a.. }}">>
+EmitMbyte ==
+  /\ "mbyte" \in MutKinds /\ tc = Nav /\ IsScalarPos
+  /\ \E j \in DOMAIN MbChars, k \in {1, 4, 16}, e \in DOMAIN MbErr :
+       \/ tc' = ToJson(ReplaceVec("mbyte", "scalar", Frag("px", "none", "", <<"", MbChars[j], MbErr[e], "", "">>, <<>>, <<>>, k)))
+       \/ /\ Parent.k = "m"
+          /\ tc' = ToJson(Vec("mbyte", "key", <<[op |-> "key", path |-> path, key |-> K1], SetHole(path, H1)>>,
+                              <<[id |-> K1, f |-> Frag("px", "none", "", <<"k", MbChars[j], "", "", "">>, <<>>, <<>>, k)],
+                                [id |-> H1, f |-> FW("x${{ foo }}")]>>, <<>>, "any"))
+  /\ UNCHANGED <<ch, b, path>>
+
+\* GRAPH-shaped inputs: small documents in which a structure that is walked naively is re-walked exponentially or
+\* quadratically often.  The spec names shape and parameters; the harness writes the document (robust.go: rbGenDoc).
+GraphShapes ==
+  {[shape |-> "needs-layers", a |-> k, b |-> n] : k \in {2, 3}, n \in {20, 40, 80}}          \* k jobs per layer x n layers, complete between layers
+  \cup {[shape |-> "needs-layers-cycle", a |-> 2, b |-> n] : n \in {20, 40}}                   \* the same closed into a cycle
+  \cup {[shape |-> "needs-chain", a |-> 1, b |-> n] : n \in {100, 500}}
+  \cup {[shape |-> "needs-complete", a |-> 1, b |-> n] : n \in {30, 60}}                       \* job i needs every job j < i
+  \cup {[shape |-> "needs-fan-in", a |-> 1, b |-> 300], [shape |-> "needs-fan-out", a |-> 1, b |-> 300]}
+  \cup {[shape |-> "needs-dup", a |-> 1, b |-> 300]}                                          \* one job listing the same need n times
+  \cup {[shape |-> "laughs", a |-> w, b |-> n] : w \in {2, 9}, n \in {10, 20, 30}}             \* billion-laughs anchors: level i = w aliases of level i-1
+  \cup {[shape |-> "matrix", a |-> r, b |-> n] : r \in {5, 40}, n \in {20, 200}}              \* r rows (x 5 values) with n include and n exclude entries
+  \cup {[shape |-> "same-step-id", a |-> 1, b |-> 500], [shape |-> "many-steps", a |-> 1, b |-> 500]}
+  \cup {[shape |-> "many-placeholders", a |-> e, b |-> n] : e \in {0, 1}, n \in {300, 3000}}   \* n placeholders in one scalar (a = 1: the last one is wrong)
+  \cup {[shape |-> "many-jobs", a |-> 1, b |-> 400], [shape |-> "many-env", a |-> 1, b |-> 1500], [shape |-> "many-outputs", a |-> 1, b |-> 500]}
+  \cup {[shape |-> "many-inputs", a |-> 1, b |-> 500], [shape |-> "many-labels", a |-> 1, b |-> 1000], [shape |-> "many-patterns", a |-> 1, b |-> 500]}
+EmitGraph ==
+  /\ "graph" \in MutKinds /\ tc = Nav /\ path = <<>> /\ b = CHOOSE i \in BaseIdx(ch) : \A j \in BaseIdx(ch) : i <= j
+  /\ \E g \in GraphShapes :
+       tc' = ToJson([Vec("graph", g.shape, <<>>, <<>>, <<>>, "any") EXCEPT !.gen = g])
+  /\ UNCHANGED <<ch, b, path>>
+
 \* several files in one run, inside and OUTSIDE a project (no .git / .github/workflows above them: the caches of
 \* local actions and local reusable workflows are the null caches then)
 MultiUses == UNION {NearMiss(x) : x \in CallUsesSeeds} \cup {<<"./foo.yml", "@", "main">>, <<"./", "act">>, <<"./">>, <<"./", "missing">>}
@@ -707,7 +743,7 @@ EmitRoot ==
   /\ UNCHANGED <<ch, b, path>>
 
 Next == Start \/ Descend \/ EmitRecog \/ EmitScalar \/ EmitSeq \/ EmitMap \/ EmitNest \/ EmitLong \/ EmitExpr \/ EmitAlias
-        \/ EmitTagged \/ EmitAnchored \/ EmitMerge \/ EmitKey \/ EmitRoot \/ EmitCycle \/ EmitMulti \/ EmitDepth
+        \/ EmitTagged \/ EmitAnchored \/ EmitMerge \/ EmitKey \/ EmitRoot \/ EmitCycle \/ EmitMulti \/ EmitDepth \/ EmitMbyte \/ EmitGraph
 Spec == Init /\ [][Next]_vars
 
 NodesTyped == tc = Nav => HereT.k # "none"
